@@ -585,9 +585,13 @@ def relative_permeabilities(
         raise ValueError(msg)
 
     denominator = 1 - params.S_or - params.S_wc - params.S_gc
-    kro = params.k_ro_max * ((saturations["So"] - params.S_or) / denominator) ** params.n_o
-    krw = params.k_rw_max * ((saturations["Sw"] - params.S_wc) / denominator) ** params.n_w
-    krg = params.k_rg_max * ((saturations["Sg"] - params.S_gc) / denominator) ** params.n_g
+
+    def normalised(saturation, residual):
+        return np.clip((saturation - residual) / denominator, 0, 1)
+
+    kro = params.k_ro_max * normalised(saturations["So"], params.S_or) ** params.n_o
+    krw = params.k_rw_max * normalised(saturations["Sw"], params.S_wc) ** params.n_w
+    krg = params.k_rg_max * normalised(saturations["Sg"], params.S_gc) ** params.n_g
     k_rel = np.array(
         list(zip(kro, krw, krg)),
         dtype=[(i, np.float64) for i in ("kro", "krw", "krg")],
